@@ -1155,6 +1155,12 @@ def num_getattr(ev, obj: Num, name, fr, node):
         if name == "jd1":
             return Num(whole, kind="number", shape=obj.shape, axes=obj.axes, isfloat=True)
         return Num(days + off - whole, kind="number", shape=obj.shape, axes=obj.axes, isfloat=True)
+    if obj.kind == "time" and name == "precision":
+        return OpaqueV("timeprecision", obj)     # not tracked: comparisons with a literal are undecided (both arms explored)
+    if obj.kind == "quantity" and name in ("sec", "jd") and dim_of(obj.expr) == dim_of(1 / UNITS["Hz"]):
+        # a TimeDelta (difference of two Times is carried as a duration): .sec is its value in seconds, .jd in days
+        v_ = obj.expr * UNITS["Hz"]
+        return Num(v_ if name == "sec" else v_ / 86400, kind="array" if obj.shape else "number", shape=obj.shape, axes=obj.axes, isfloat=True)
     if obj.kind == "time" and name in ("format", "scale"):
         return OpaqueV("time" + name, obj)       # not tracked: comparisons with a literal are undecided (both arms explored)
     if obj.kind == "time" and name in ("value", "isot", "iso", "fits", "yday", "datetime", "datetime64", "ymdhms", "unix", "gps", "cxcsec", "byear", "jyear",
@@ -1962,6 +1968,11 @@ def _np_unary(fn, real=False):
             ev.unsupported(f"numeric function of {x!r}", node, fr)
         if "dtype" in kwargs:
             ev.trace.append(("exp-dtype", norm(node) if node is not None else "", kwargs["dtype"]))
+        elif fn is sp.exp and isinstance(x.dtype, ExtV) and x.dtype.dotted in ("numpy.float32", "numpy.complex64", "numpy.float16") \
+                and any(getattr(s_, "name", "").rstrip("0123456789") in ("n", "kbin", "krbin") for s_ in x.expr.free_symbols):
+            # a ramp (index-dependent exponent) held in single precision: the argument n*pi/2 is rounded to ~1e-7 relative BEFORE
+            # the exponential, an error that grows with the index
+            ev.trace.append(("exp-dtype", norm(node) if node is not None else "", x.dtype))
         return x.like(fn(x.expr), dtype=real_dtype(x.dtype) if real else x.dtype)
     return h
 
@@ -2479,7 +2490,8 @@ def h_arange(ev, args, kwargs, fr, node, backend=None):
         ev.unsupported("arange with start/step", node, fr)
     n = args[0].expr
     i = ev.new_index("n", n)
-    return Num(i, kind="array", shape=(n,), axes=(i,), backend=backend)
+    dt = kwargs.get("dtype")
+    return Num(i, kind="array", shape=(n,), axes=(i,), backend=backend, dtype=dt if isinstance(dt, ExtV) else ExtV("numpy.int64"))
 
 
 def h_fftfreq(ev, args, kwargs, fr, node, backend=None):
@@ -3144,6 +3156,9 @@ def h_time(ev, args, kwargs, fr, node):
         except Exception:
             pass
     from .symeval import Raised
+    if isinstance(x, (ListV, TupleV)) and x.items and all(isinstance(i, Num) and i.kind == "time" and not i.shape for i in x.items):
+        arr = NdArr((len(x.items),), list(x.items))          # Time([t0, t1, ...]): an array-valued Time of the same instants
+        return arr
     if isinstance(x, (StrV, NoneV, BoolV, DictV, ListV, TupleV)) or (isinstance(x, Num) and x.kind != "time"):
         if isinstance(x, Num) and kwargs.get("format") is not None and isinstance(kwargs["format"], StrV) \
                 and kwargs["format"].s == "mjd":
@@ -3216,7 +3231,59 @@ def h_where(ev, args, kwargs, fr, node):
     ce = c.expr
     if not is_bool_expr(ce):
         ce = sp.Ne(ce, 0)
-    return Num(mk_ite(ce, a.expr, b.expr), kind="array", shape=getattr(a, "shape", None))
+    shp = _ufunc_broadcast_shape([x for x in (c, a, b) if isinstance(x, Num)])
+    scalar = shp is None and all(isinstance(x, Num) and x.kind in ("number", "bool", "quantity") and x.tag != "data" for x in (a, b))
+    return Num(mk_ite(ce, a.expr, b.expr), kind=("number" if scalar else "array"), shape=(() if scalar and shp is None else shp),
+               isfloat=getattr(a, "isfloat", False) or getattr(b, "isfloat", False), dtype=getattr(a, "dtype", None) or getattr(b, "dtype", None),
+               backend=getattr(a, "backend", None) or getattr(b, "backend", None))
+
+
+def h_squeeze(ev, args, kwargs, fr, node):
+    x = args[0]
+    ax = kwargs.get("axis", args[1] if len(args) > 1 else NONE)
+    if not isinstance(ax, NoneV):
+        ev.unsupported("np.squeeze with an axis argument", node, fr)
+    if isinstance(x, NdArr):
+        out = NdArr(tuple(s_ for s_ in x.shape if s_ != 1), list(x.items))
+        out.dtype = getattr(x, "dtype", None)
+        return out
+    if isinstance(x, Num):
+        if x.shape is None:
+            return x
+        keep = [s_ for s_ in x.shape if not (sp.sympify(s_) == 1)]
+        if any(not sp.sympify(s_).is_number for s_ in x.shape if sp.sympify(s_) != 1) and len(keep) != len(x.shape):
+            pass        # symbolic extents other than the literal ones stay
+        return x.like(x.expr, unit=x.unit, dtype=x.dtype, shape=tuple(keep)) if hasattr(x, "like") else x
+    ev.unsupported(f"np.squeeze of {x!r}", node, fr)
+
+
+def h_ndenumerate(ev, args, kwargs, fr, node):
+    x = args[0]
+    if isinstance(x, Num) and (x.shape is None or len(x.shape) == 0):
+        return ListV([TupleV([TupleV([]), x])])
+    if isinstance(x, Num):
+        x2 = nd_materialize(x)
+        if x2 is None:
+            ev.unsupported("np.ndenumerate over an array whose elements are not enumerable", node, fr)
+        x = x2
+    if isinstance(x, NdArr):
+        import itertools
+        idx = list(itertools.product(*[range(int(s_)) for s_ in x.shape]))
+        return ListV([TupleV([TupleV([Num(sp.Integer(i)) for i in ix]), v]) for ix, v in zip(idx, x.items)])
+    ev.unsupported(f"np.ndenumerate of {x!r}", node, fr)
+
+
+def h_cumsum(ev, args, kwargs, fr, node):
+    x = args[0]
+    items = ev.iterate(x, fr, node) if isinstance(x, (ListV, TupleV, NdArr)) else None
+    if items is None or not all(isinstance(i, Num) for i in items) or kwargs.get("axis") is not None and not isinstance(kwargs.get("axis"), NoneV):
+        ev.unsupported("np.cumsum of something else than a 1-D sequence of numbers", node, fr)
+    acc, out = None, []
+    for it in items:
+        acc = it if acc is None else binop(ev, ast.Add(), acc, it, node, fr)
+        out.append(acc)
+    r = NdArr((len(out),), out)
+    return r
 
 
 def h_prod(ev, args, kwargs, fr, node):
@@ -3263,6 +3330,31 @@ def h_round(ev, args, kwargs, fr, node):
 def h_allclose(ev, args, kwargs, fr, node):
     a, b = args[0], args[1]
     ev.trace.append(("allclose", a, b, node, fr.fi.qualname if fr is not None and fr.fi is not None else None))
+    # explicit sequences of plain numbers: the definition, element by element (np.allclose = all(np.isclose))
+    seq = lambda v: h_array(ev, [v], {}, fr, node) if isinstance(v, (TupleV, ListV)) else v  # noqa: E731
+    if getattr(ev, "debug_allclose", False):
+        print("ALLCLOSE", repr(a)[:300], "||", repr(b)[:300])
+    if isinstance(a, (TupleV, ListV, NdArr)) and isinstance(b, (TupleV, ListV, NdArr)) and not kwargs.get("_from_isclose"):
+        a2, b2 = seq(a), seq(b)
+
+        def tidy(arr):      # units that cancel (Hz * (t/Hz)) are expanded away before the operands are looked at
+            if not isinstance(arr, NdArr):
+                return arr
+            out_ = NdArr(arr.shape, [e.like(sp.expand(e.expr)) if isinstance(e, Num) and (e.expr.free_symbols & UNIT_SYMS) else e for e in arr.items])
+            out_.dtype = getattr(arr, "dtype", None)
+            return out_
+        a2, b2 = tidy(a2), tidy(b2)
+        if isinstance(a2, NdArr) and isinstance(b2, NdArr) and all(isinstance(e, Num) and not (e.expr.free_symbols & UNIT_SYMS) and e.kind in ("number", "array")
+                                                                    for e in list(a2.items) + list(b2.items)):
+            r = h_isclose(ev, [a2, b2] + list(args[2:]), {k_: v_ for k_, v_ in kwargs.items() if k_ in ("rtol", "atol")}, fr, node)
+            conds = []
+            for e in r.items:
+                if isinstance(e, BoolV):
+                    if not e.b:
+                        return BoolV(False)
+                    continue
+                conds.append(e.expr)
+            return BoolV(True) if not conds else CondV(sp.And(*conds))
     if isinstance(a, NdArr):
         conds = [sp.Ne(F["Allclose"](e.expr, b.expr), 0) for e in a.items]
         return CondV(sp.And(*conds))
@@ -3576,6 +3668,8 @@ EXT = {
     "numpy.empty": lambda ev, a, k, fr, n: h_zeros(ev, a, k, fr, n),
     "functools.reduce": lambda ev, a, k, fr, n: h_reduce(ev, a, k, fr, n),
     "numpy.finfo": lambda ev, a, k, fr, n: h_finfo(ev, a, k, fr, n),
+    "numpy.squeeze": lambda ev, a, k, fr, n: h_squeeze(ev, a, k, fr, n), "numpy.ndenumerate": lambda ev, a, k, fr, n: h_ndenumerate(ev, a, k, fr, n),
+    "numpy.cumsum": lambda ev, a, k, fr, n: h_cumsum(ev, a, k, fr, n),
     "dataclasses.asdict": h_asdict, "operator.itemgetter": h_itemgetter, "operator.attrgetter": h_attrgetter,
     "operator.or_": lambda ev, a, k, fr, n: binop(ev, ast.BitOr(), a[0], a[1], n, fr),
     "operator.and_": lambda ev, a, k, fr, n: binop(ev, ast.BitAnd(), a[0], a[1], n, fr),
